@@ -183,30 +183,28 @@ mod proofs {
 #[cfg(all(test, not(kani)))]
 mod replay {
     use super::*;
-    #[test]
-    fn verif_replay() {
-        let name = std::env::var("VERIF_HARNESS").unwrap_or_default();
-        let mut r = RSrc::from_env();
-        match name.as_str() {
-            "px4" => h_px4(&mut r),
-            "coeff" => h_coeff(&mut r),
-            "within1_r" => h_within1::<RSrc, 0>(&mut r),
-            "within1_g" => h_within1::<RSrc, 1>(&mut r),
-            "within1_b" => h_within1::<RSrc, 2>(&mut r),
-            "monotone" => h_monotone(&mut r),
-            "empty" => h_empty(&mut r),
+    fn dispatch(name: &str, r: &mut RSrc) -> bool {
+        match name {
+            "px4" => h_px4(r),
+            "coeff" => h_coeff(r),
+            "within1_r" => h_within1::<RSrc, 0>(r),
+            "within1_g" => h_within1::<RSrc, 1>(r),
+            "within1_b" => h_within1::<RSrc, 2>(r),
+            "monotone" => h_monotone(r),
+            "empty" => h_empty(r),
             _ => {
                 let dims = name.rsplit('_').next().unwrap_or("");
                 let mut it = dims.split('x');
                 match (it.next().and_then(|v| v.parse().ok()), it.next().and_then(|v| v.parse().ok())) {
-                    (Some(w), Some(h)) => h_geom_dyn(&mut r, w, h),
-                    _ => {
-                        println!("REPLAY-UNKNOWN harness={}", name);
-                        return;
-                    }
+                    (Some(w), Some(h)) => h_geom_dyn(r, w, h),
+                    _ => return false,
                 }
             }
         }
-        r.report(&name);
+        true
+    }
+    #[test]
+    fn verif_replay() {
+        verif_replay_main(dispatch)
     }
 }
